@@ -22,6 +22,8 @@ def gen_streams(ctx):
     per = 2500 if quick else 60000
     for k in range(nshard):
         jobs.append(("rand", ["rand", per, 60 if quick else 300, k]))
+    for k in range(nshard):
+        jobs.append(("occ", ["occ", 2500 if quick else 60000, k]))
     cfgs = "1,3,0,11,9" if quick else "0,1,2,3,8,9,10,11,5,13"
     # exhaustive small domain, one job per configuration
     for c in cfgs.split(","):
@@ -164,7 +166,7 @@ def run_matcher_check(ctx, pid, known_filter=None):
         rule="cases = (configuration, representations, haystack, needle); each case runs 6 algorithms x (score-only, indices) x "
              "(fresh, used, poisoned matcher); streams: corpus of past failures, seeded structured random (needles drawn as subsequences/"
              "substrings/trimmed copies of the normalized haystack, then perturbed), exhaustive small domain over an 8-symbol alphabet, "
-             "size-limit shapes, long needles; distinct non-trivial = distinct cases with non-empty haystack and needle",
+             "occurrence-rich haystacks (the needle, near misses of it and separators concatenated), size-limit shapes, long needles; distinct non-trivial = distinct cases with non-empty haystack and needle",
         samples=[l[:300] for l in lines if l.startswith("M ")][:3] + [l for l in lines if l.startswith("X ")][:2],
         model_disagreements=len(diffs), oracle_failures=len(mine))
     ctx.assumptions += ["Rust std char::is_lowercase/is_numeric/is_alphabetic are inputs of the model",
